@@ -98,7 +98,7 @@ def mk_consistency(L, lo, hi, typ, look_ahead, with_prefix):
         wit = [{'line': w, 'pos': p} for (w, p) in [('', 0), ('a', 1), ('a>b', 3), ('a b', 3), ('a[', 2), ('>a', 2)]
                if len(w) == L and (not w or lo <= ord(w[0]) < hi)]
         tw = twin if L >= 1 and lo <= ord('a') < hi else None
-    return {'fn': h, 'twin': tw, 'witnesses': wit,
+    return {'fn': h, 'twin': tw, 'witnesses': wit, 'check': check,
             'assumptions': ['line ASCII, len==%d, ord(line[0]) in [%d,%d); pos any integer; type=%s lookAhead=%s '
                             'prefix=%s' % (L, lo, hi, typ, look_ahead, 'one symbolic ASCII char' if with_prefix else 'none')],
             'functions': ['emmet.extract_abbreviation.extract_abbreviation', 'offset_past_auto_closed',
@@ -137,8 +137,13 @@ def abbreviations(limit):
         out.append(a + '>(' + b + '+' + c + ')')
         out.append('ul>' + b + '*3>' + c)
     out.append('li[title=x]*3>a')
-    out.append('table>(tr.prefix-intro>td*1)+(tr.prefix-pro-con>th*1+td*3)')
+    # bracket and quote characters inside attribute values and text
+    out += ['a[onclick="f(1, 2)"]', 'td[title="a (b c) d"]*2', 'p{a (b c) d}', 'ea{(}', 'ea{)}+eb', 'ea{]}', 'ea[t="x]y"]>eb',
+            'div[style="color: rgb(0, 0, 0)"]>p', "a[href=\"javascript:alert('x')\"]",
+            'x[a="("]', 'x[a=")"]', 'x[a="["]', "x[a='{']", 'x{\\}}']
     out = list(dict.fromkeys(out))
+    special = [a for a in out if '(' in a.split('[', 1)[-1] or '"' in a or '{(' in a or '{)' in a or '{]' in a or "'" in a or '\\' in a]
+    out = special + [a for a in out if a not in special]
     return out[:limit]
 
 
@@ -155,11 +160,11 @@ def mk_roundtrip(abbr, left, right, look_ahead):
         pos = len(Lc) + len(abbr)
         r = extract_abbreviation(line, pos, opt)
         if r is None:
-            return 'nothing_extracted'
+            return 'nothing_extracted:' + abbr
         if r.abbreviation != abbr:
-            return 'wrong_abbreviation'
+            return 'wrong_abbreviation:' + abbr
         if r.location != len(Lc) or r.start != len(Lc) or r.end != pos:
-            return 'wrong_offsets'
+            return 'wrong_offsets:' + abbr
         return True
 
     def right_ok(Rc):
@@ -174,7 +179,19 @@ def mk_roundtrip(abbr, left, right, look_ahead):
         return True
 
     nleft = {'none': 0, 'sym1': 1, 'sym2': 2, 'sym3': 3}.get(left)
-    if left == 'tag':
+    if left == 'tags':
+        TAGS = ['<a href="x" title=y>', '<img src=a/>', '</p>', '<b class="c d" e>', '<x:y z=\'1\'>', '<div a={x>y}>',
+                'text <em>', '<br />']
+
+        def h(name: str, Rc: str):
+            # `name` selects one of the concrete complete tags
+            if len(name) != 1 or not ('0' <= name <= '7'):
+                return 'skip'
+            if len(Rc) != (1 if right == 'sym' else 0) or not right_ok(Rc):
+                return 'skip'
+            return run(TAGS[ord(name) - 48], Rc)
+        wit = [{'name': '0', 'Rc': 'z' if right == 'sym' else ''}]
+    elif left == 'tag':
         def h(name: str, Rc: str):
             if len(name) != 1 or not ('a' <= name <= 'z' or 'A' <= name <= 'Z'):
                 return 'skip'
@@ -212,7 +229,7 @@ def mk_roundtrip_family(part, nparts, limit, left, right, look_ahead):
     fam = [a for i, a in enumerate(abbreviations(limit)) if i % nparts == part]
     made = [mk_roundtrip(a, left, right, look_ahead) for a in fam]
     fns = [m['fn'] for m in made]
-    if left == 'tag':
+    if left in ('tag', 'tags'):
         def h(k: int, name: str, Rc: str):
             if not (0 <= k < len(fns)):
                 return 'skip'
@@ -243,6 +260,38 @@ def mk_roundtrip_family(part, nparts, limit, left, right, look_ahead):
                           'consume_attribute_with_unquoted_value', 'consume_quoted']}
 
 
+OPEN = ['a[b="', 'p{x', '(a', 'a[b=\'c', 'ul>(li[t={x', 'a[b]', 'q{{y', '']
+
+
+def mk_lookahead(oi, n, typ):
+    made = mk_consistency(0, 0, 128, typ, True, False)   # reuse the consistency oracle
+    check = made['check']
+    head = OPEN[oi]
+
+    def h(R: str):
+        if len(R) > n or not all_ascii(R):
+            return 'skip'
+        return check(head + R, len(head), '')
+
+    def twin(R: str):
+        if len(R) > n or not all_ascii(R):
+            return 'skip'
+        from emmet.extract_abbreviation import extract_abbreviation
+        r = extract_abbreviation(head + R, len(head), {'type': typ})
+        return 'twin' if r is not None else True
+    return {'fn': h, 'twin': twin if head else None, 'witnesses': [{'R': '"]'[:n]}, {'R': ''}, {'R': '})'[:n]}],
+            'assumptions': ['line = %r + R with the caret between them; R any ASCII string of <=%d characters; type=%s, '
+                            'lookAhead on' % (head, n, typ)],
+            'functions': ['emmet.extract_abbreviation.offset_past_auto_closed', 'extract_abbreviation']}
+
+
+def all_ascii(s):
+    ok = True
+    for c in s:
+        ok = ok & (ord(c) < 128)
+    return True if ok else False
+
+
 def jobs(tier):
     q = tier == 'quick'
     out = []
@@ -259,17 +308,23 @@ def jobs(tier):
                            'vf.props.c11:mk_consistency',
                            dict(L=L, lo=lo, hi=hi, typ=t, look_ahead=la, with_prefix=wp),
                            bound='ASCII len=%d, any pos' % L, budget=600 if q else 2400, weight=40 ** L))
-    limit = 24 if q else 150
-    nparts = 4 if q else 14
+    for oi in range(len(OPEN)):
+        for typ in (('markup',) if q else ('markup', 'stylesheet')):
+            out.append(Job('C11-a/lookahead/%s/open%d' % (typ, oi), 'vf.props.c11:mk_lookahead',
+                           dict(oi=oi, n=3 if q else 4, typ=typ), shape='H', bound='right context <=%d chars' % (3 if q else 4),
+                           budget=900 if q else 3000, weight=3000))
+    limit = 48 if q else 150
+    nparts = 6 if q else 14
     if q:
-        combos = [('none', 'none', True), ('none', 'sym', True), ('sym1', 'none', True), ('tag', 'none', True)]
+        combos = [('none', 'none', True), ('none', 'sym', True), ('sym1', 'none', True), ('tag', 'none', True),
+                  ('tags', 'none', True)]
     else:
-        combos = [(l, r, la) for l in ('none', 'sym1', 'sym2', 'tag') for r in ('none', 'sym') for la in (True, False)]
+        combos = [(l, r, la) for l in ('none', 'sym1', 'sym2', 'tag', 'tags') for r in ('none', 'sym') for la in (True, False)]
     for (left, right, la) in combos:
         for p in range(nparts):
             out.append(Job('C11-b/roundtrip/left=%s,right=%s,la=%d/part%d' % (left, right, la, p),
                            'vf.props.c11:mk_roundtrip_family',
                            dict(part=p, nparts=nparts, limit=limit, left=left, right=right, look_ahead=la),
                            shape='H', bound='%d abbreviations' % limit, budget=600 if q else 2400,
-                           weight={'none': 1, 'sym1': 50, 'tag': 60, 'sym2': 2000, 'sym3': 50000}[left]))
+                           weight={'none': 1, 'sym1': 50, 'tag': 60, 'tags': 70, 'sym2': 2000, 'sym3': 50000}[left]))
     return out
